@@ -1665,10 +1665,21 @@ dt_dtadd(struct dt_dt_s d, struct dt_dtdur_s dur)
 				/* don't have to */
 				;
 			} else if (UNLIKELY(i_d < i_orig)) {
-				d.t.hms.s -= nltr;
+				/* the correction took us back over insertions
+				 * that were not passed then, hand them back */
+				d.t.hms.s += leaps_corr[i_orig] - leaps_corr[i_d];
 			} else if (UNLIKELY(i_d > i_orig)) {
-				d = orig;
-				d.t.hms.s += nltr;
+				/* the correction took us forth over insertions
+				 * on top of the ones accounted for */
+				const int r = leaps_corr[i_d] - leaps_corr[i_orig];
+
+				if (orig.t.hms.s + nltr == 59 + r) {
+					/* right on the inserted second */
+					d = orig;
+					d.t.hms.s += nltr;
+				} else {
+					d.t = dt_tadd_s(d.t, -r, 0);
+				}
 			}
 		}
 	}
